@@ -351,4 +351,48 @@ def S.vars : S → List Var
   | .append a b => a.vars ++ b.vars
   | .static s => s.vars
 
+/-! ## call histories of a StaticSampler (the trace itself is C15's subject; here: which sample is handed out) -/
+
+/-- one call of `StaticSampler.sample_points`: `counter += 1`; the saved points are handed out while
+    `created_points and counter < resample_interval`, otherwise `counter = 0` and `fresh` (what the wrapped
+    sampler returns for the parameters of THIS call) is saved and returned.  `interval = none` is `math.inf`. -/
+def keepSaved (interval : Option Nat) (c : Nat) (pts : List Row) : Bool :=
+  !pts.isEmpty && (match interval with | none => true | some r => decide (c < r))
+
+def staticStep (interval : Option Nat) (st : Nat × Option (List Row)) (fresh : List Row) :
+    List Row × (Nat × Option (List Row)) :=
+  match st.2 with
+  | some pts => if keepSaved interval (st.1 + 1) pts then (pts, (st.1 + 1, some pts)) else (fresh, (0, some fresh))
+  | none => (fresh, (0, some fresh))
+
+/-- the outputs of a history of calls; `freshs[t]` is what the wrapped sampler would return in call `t` -/
+def staticRun (interval : Option Nat) : (Nat × Option (List Row)) → List (List Row) → List (List Row)
+  | _, [] => []
+  | st, f :: fs => let r := staticStep interval st f; r.1 :: staticRun interval r.2 fs
+
+/-! ## the dependent ProductDomain of the pinned snapshot (kept for the negative result) -/
+
+/-- `_sample_uniform_b_points(n_in, params)`: `n_in` points of b for every parameter row, thinned by the
+    volume-ratio rejection (verdicts: oracle) unless there is a single row -/
+def depBatchOld (o : Oracle) (b : Dom) (round nIn : Nat) (ps : List Row) : List (Point × Row) :=
+  let reps := if ps.isEmpty then List.replicate nIn Row.nil else repeatParams ps nIn
+  let pts := if ps.isEmpty then b.sample o.choose nIn [] else b.sample o.choose 1 (repeatParams ps nIn)
+  let rows := List.zip pts reps
+  if rows.length = 1 then rows else filterIdx (o.acc round) rows
+
+/-- the loop of `ProductDomain.sample_random_uniform` as it was: the number of kept points is compared with
+    `n` for all parameter rows together (`while n_points != n`) -/
+def depLoopOld (o : Oracle) (b : Dom) (n : Nat) (ps : List Row) : Nat → Nat → List (Point × Row) → Option (List (Point × Row))
+  | 0, _, _ => none
+  | fuel + 1, r, have_ =>
+    if have_.length = n then some have_
+    else if have_.length < n then
+      if have_.length = 0 then none     -- ZeroDivisionError in `n / n_points`
+      else depLoopOld o b n ps fuel (r + 1) (have_ ++ depBatchOld o b (r + 1) (n * (n - have_.length) / have_.length + 1) ps)
+    else some (have_.take n)
+
+/-- the (b point, parameter row) pairs the pinned dependent ProductDomain went on with -/
+def depBPointsOld (o : Oracle) (b : Dom) (n : Nat) (ps : List Row) : Option (List (Point × Row)) :=
+  depLoopOld o b n ps o.fuel 0 (depBatchOld o b 0 n ps)
+
 end TPV.Sampler
